@@ -9,8 +9,12 @@
 (* random numbers are exact rationals [num, den].                            *)
 (*                                                                           *)
 (*   T = [kind |-> "ar", N, hasB, b0, ev |-> <<e1, e2, ...>>]                *)
-(*       e = [a |-> "Batch", ws, us, acc, hasBin, bin, local]                *)
-(*         | [a |-> "Thin", us, kept]  (or nkept: number of survivors)       *)
+(*       e = [a |-> "Batch", ws, us, acc, hasBin, bin, local, stored]        *)
+(*         | [a |-> "Thin", us, kept, stored]  (or nkept: number of survivors)*)
+(* The bounds are bound from the log (general actions BatchG / ThinG): the   *)
+(* specification requires of them only what the property needs, so a change  *)
+(* of the safety factors 1.01 / 1.1 / 1.05 does not reject a trace (the      *)
+(* harness reports it as model drift).                                       *)
 (*         | [a |-> "End", ids, bound]                                       *)
 (*   T = [kind |-> "ph", N, gens, ev |-> <<...>>]                            *)
 (*       e = [a |-> "Direct", len] | [a |-> "First", req, acc, wle1]         *)
@@ -72,14 +76,13 @@ TrBatch ==
     /\ IsEvent("Batch") /\ Tr.kind = "ar"
     /\ Ev.hasBin = hasB                                  \* the bound the batch was called with
     /\ (hasB => RNorm(Ev.bin) = bound)
-    /\ Batch(Ev.ws, RSeq(Ev.us))
-    /\ loc' = RNorm(Ev.local)                            \* the local bound it was accepted with
+    /\ BatchG(Ev.ws, RSeq(Ev.us), RNorm(Ev.local), RNorm(Ev.stored))   \* logged: bound it was accepted with, bound kept
     /\ Pos(IF pc' = "thin" THEN pend' ELSE SubSeq(evs', Len(evs) + 1, Len(evs'))) = Ev.acc
     /\ Step
 
 TrThin ==
     /\ IsEvent("Thin") /\ Tr.kind = "ar"
-    /\ Thin(RSeq(Ev.us))
+    /\ ThinG(RSeq(Ev.us), RNorm(Ev.stored))
     /\ IF "kept" \in DOMAIN Ev
        THEN Ids(SubSeq(evs', 1, Len(evs') - Len(pend))) = Ev.kept   \* survivors, in order
        ELSE Len(evs') - Len(pend) = Ev.nkept                        \* interp_sample_f: only the count is observable
